@@ -21,7 +21,7 @@ RULE = ("base runs of C06 (21 problems x maxcor {1,2,3,5}) with a retaining call
         "maxiter=k; at every later crash point the live state object must still equal that "
         "copy, and a restart from the live object must give the uninterrupted run's next "
         "iterate (1e-8); the run with a never-stopping callback equals the run without "
-        "callback bitwise incl. the evaluation log; non-trivial = crash point at which a "
+        "callback bitwise incl. the evaluation log, and so does the run with a callback that writes into its xk argument / state.x / state.jac / the state's pairs before returning False; non-trivial = crash point at which a "
         "callback state with >= 1 pair exists; distinct = distinct (base run, crash index)")
 ASSUMPTIONS = [
     "a crash is modelled by an exception escaping from the user's callable at call j; "
@@ -102,6 +102,27 @@ def run(case):
             or str(withcb.message) != str(ref.message):
         viol.append(V("callback_presence_alters_run", _case=sub(None),
                       fields=H.same_state(withcb, ref)))
+    # letter: a callback that, after taking its copies, writes into what it was handed
+    # (its xk argument, state.x, state.jac, the pairs of state.hess_inv) and returns False
+    for what in ("xk", "state.x", "state.jac", "pairs"):
+        def cbs(x, st, _w=what):
+            if _w == "xk":
+                x[...] = 0.5 * x + 1.0
+            elif _w == "state.x":
+                st.x[...] = 0.5 * st.x + 1.0
+            elif _w == "state.jac":
+                st.jac[...] = -2.0 * st.jac + 1.0
+            else:
+                st.hess_inv.sk[...] = 0.0
+                st.hess_inv.yk[...] = 1.0
+            return False
+        obs2, kw2 = fresh()
+        r2 = H.solve(p, case, K, callback=cbs, **kw2)
+        nex += 1
+        if H.same_state(r2, ref) or obs0.calls != obs2.calls \
+                or str(r2.message) != str(ref.message):
+            viol.append(V("callback_writing_into_its_arguments_alters_run", _case=sub(None),
+                          written=what, fields=H.same_state(r2, ref)))
     # (i) state at callback k == result of a run with maxiter = k
     # An iteration whose line search fails resets the memory, increments nit and is not
     # reported to the callback; so the k of the i-th callback is found by matching its
